@@ -38,7 +38,7 @@ impl Property for C18 {
         "C18"
     }
     fn rule(&self) -> &'static str {
-        "profile `flow` with shadowing emphasis, 0-2 virtual signals (so the variable swap around virtual evaluation runs), X/C rows (several items share one evaluation), Z/X device answers in a third of the cases (virtual signals then make rows error items and the caller goes on), a malformed driver answer (an entry dropped or repeated, two entries swapped) to one call in a quarter of the cases (that row is an error item, the caller goes on). Every row statement carries a tag and two 64-bit probe inputs `(v)` for variables v definitely in scope there. The caller inspects vars() after every yielded row. Oracle (self-consistent, no reference values): with D = variables definitely in scope at that source row and P = variables that can be in scope there (lets at the level of an enclosing frame, enclosing counters) by an independent static scope analysis of the generating program: D is a subset of keys(vars()) which is a subset of P (so variables of ended loops, device outputs and virtual signals are absent), and for each probed v, vars()[v] equals the value the crate itself evaluated `(v)` to in that row (the innermost binding). In a third of the cases `let zc = v0;` / `loop(zc, m)` / row / `end loop` / row (v0 in {0, 1, 3}, zc bound nowhere else) is planted at a top-level position: inside that loop vars()[zc] is the number of the pass (strictly increasing over the rows that are seen), and from the row after the loop on vars()[zc] = v0 (known values, so a shadowed binding that is written through is seen). In another third `let ovq = 11;` / `loop(ocq, 3)` / `while(0)` `let ovq = 5;` `end while` / row P / `let ovq = (ocq + 20);` / row Q / `end loop` / row R is planted: P shows ovq = 11 in the first pass and 19 + j in pass j >= 1 (what a pass binds in the loop's scope lives until the loop ends), Q shows 20 + j, R shows 11 again and no ocq. Non-trivial: some inspected row has a shadowed name in scope, or follows an ended loop, or is an expansion item other than the first; distinct by source + signals + driver."
+        "profile `flow` with shadowing emphasis, 0-2 virtual signals (so the variable swap around virtual evaluation runs), X/C rows (several items share one evaluation), Z/X device answers in a third of the cases (virtual signals then make rows error items and the caller goes on), a malformed driver answer (an entry dropped or repeated, two entries swapped) to one call in a quarter of the cases (that row is an error item, the caller goes on). Every row statement carries a tag and two 64-bit probe inputs `(v)` for variables v definitely in scope there. The caller inspects vars() after every yielded row. Oracle (self-consistent, no reference values): with D = variables definitely in scope at that source row and P = variables that can be in scope there (lets at the level of an enclosing frame, enclosing counters) by an independent static scope analysis of the generating program: D is a subset of keys(vars()) which is a subset of P (so variables of ended loops, device outputs and virtual signals are absent), and for each probed v, vars()[v] equals the value the crate itself evaluated `(v)` to in that row (the innermost binding). In a third of the cases `let zc = v0;` / `loop(zc, m)` / row / `end loop` / row (v0 in {0, 1, 3}, zc bound nowhere else) is planted at a top-level position: inside that loop vars()[zc] is the number of the pass (strictly increasing over the rows that are seen), and from the row after the loop on vars()[zc] = v0 (known values, so a shadowed binding that is written through is seen). In another third `let ovq = 11;` / `loop(ocq, 3)` / `while(0)` `let ovq = 5;` `end while` / row P / `let ovq = (ocq + 20);` / row Q / `end loop` / row R is planted: P shows ovq = 11 in the first pass and 19 + j in pass j >= 1 (what a pass binds in the loop's scope lives until the loop ends), Q shows 20 + j, R shows 11 again and no ocq. One case in eight holds nine loops inside one another with a row in the ninth and one behind its `end loop` (subject to the same D / P rule: the ninth counter and what the ninth loop bound are gone there). In a quarter of the cases the program starts with `loop(qc, 3)` / a row of literals only (no tag, no probe) / `end loop`, or `repeat(3)` over such a row: the first three items show the counter 0, 1, 2. Non-trivial: some inspected row has a shadowed name in scope, or follows an ended loop, or is an expansion item other than the first; distinct by source + signals + driver."
     }
     fn cases(&self, tier: Tier) -> u64 {
         match tier {
@@ -47,7 +47,7 @@ impl Property for C18 {
         }
     }
     fn required_classes(&self) -> Vec<&'static str> {
-        vec!["shadowed-name-in-scope", "row-after-loop-end", "expansion-item>0", "declare", "var-named-like-output", "vars-after-error-item", "vars-after-malformed-answer", "probe-checked", "row-in-loop", "planted-shadowing-loop-checked", "planted-shadowed-binding-checked", "planted-accumulator-checked"]
+        vec!["shadowed-name-in-scope", "row-after-loop-end", "expansion-item>0", "declare", "var-named-like-output", "vars-after-error-item", "vars-after-malformed-answer", "probe-checked", "row-in-loop", "planted-shadowing-loop-checked", "planted-shadowed-binding-checked", "planted-accumulator-checked", "head-loop-of-literals-checked"]
     }
     fn run(&self, s: &Streams) -> CaseOut {
         let mut out = CaseOut::new();
@@ -108,7 +108,40 @@ impl Property for C18 {
             }
             planted2 = Some((id_p, id_q, id_r));
         }
+        // One case in eight: nine loops inside one another (e0 .. e8, one pass each). The innermost binds `dxq` (bound to 7
+        // outside) and holds a row; a second row follows behind its `end loop`, inside the eighth: there e8 and the inner
+        // `dxq` are gone again, however deep the nest is.
+        if lch.chance(1, 8) {
+            let lit_row = |cols: &[Col]| -> Vec<Entry> {
+                cols.iter().map(|c| if c.role == ColRole::ExpectedOnly { Entry::X(true) } else { Entry::Num(0, Radix::Dec) }).collect()
+            };
+            let (id_a, id_b) = (built.prog.row_count(), built.prog.row_count() + 1);
+            let mut nest = vec![Stmt::Loop("e8".into(), Expr::lit(1), vec![Stmt::Let("dxq".into(), Expr::lit(5)), Stmt::Row(id_a, lit_row(&built.cols))]), Stmt::Row(id_b, lit_row(&built.cols))];
+            for k in (0..8).rev() {
+                nest = vec![Stmt::Loop(format!("e{k}"), Expr::lit(1), nest)];
+            }
+            let at = lch.upto(built.prog.stmts.len() + 1);
+            built.prog.stmts.insert(at, Stmt::Let("dxq".into(), Expr::lit(7)));
+            built.prog.stmts.insert(at + 1, nest.pop().unwrap());
+            out.class("nine-loops-deep");
+        }
         let scopes = instrument(&mut built, &mut lch, 2, ProbePref::Vars, &[]);
+        // In a quarter of the cases the program starts with a loop whose body is one row of literals only - no tag, no
+        // probe, nothing to evaluate: `loop(qc, 3)` / `0 0 .. X` / `end loop`, or `repeat(3) 0 0 .. X` (counter `n`).
+        // The first three items of the run are its passes; the counter is 0, 1, 2 all the same.
+        let mut head: Option<&'static str> = None;
+        if lch.chance(1, 4) {
+            let es: Vec<Entry> = built.cols.iter().map(|c| if c.role == ColRole::ExpectedOnly { Entry::X(true) } else { Entry::Num(0, Radix::Dec) }).collect();
+            let id = built.prog.row_count();
+            if lch.chance(1, 2) {
+                built.prog.stmts.insert(0, Stmt::Loop("qc".into(), Expr::lit(3), vec![Stmt::Row(id, es)]));
+                head = Some("qc");
+            } else {
+                built.prog.stmts.insert(0, Stmt::Repeat(Expr::lit(3), id, es));
+                head = Some("n");
+            }
+            built.analysis = analyse(&built.prog);
+        }
         let text = built_text(&built);
         let mut dch = Ch::new(&s[2]);
         let mut spec = gen_spec(
@@ -183,6 +216,17 @@ impl Property for C18 {
             };
             let Some(Some(vars)) = real.vars.get(i) else { continue };
             let Some(InVal::Val(tag)) = row.inputs.iter().find(|e| e.0 == "TAG").map(|e| e.1) else { continue };
+            if let (Some(counter), true, 0) = (head, i < 3, tag) {
+                out.class("head-loop-of-literals-checked");
+                if vars.get(counter) != Some(&(i as i64)) {
+                    out.fail(
+                        "c18:counter-of-a-literal-row-loop",
+                        format!("after item {i}, pass {i} of the `{}` over one row of literals the program starts with: vars()[{counter}] = {:?}, must be {i}", if counter == "n" { "repeat(3)" } else { "loop(qc, 3)" }, vars.get(counter)),
+                    );
+                    return out;
+                }
+                continue;
+            }
             let Some(sc) = scopes.get(&((tag - 1) as usize)) else { continue };
             // the planted construct: known values
             if let Some((id_in, id_after, v0)) = planted {
